@@ -95,13 +95,13 @@ def _neighbour(o, cls, mi, n):
     return z3.Select(z3.Select(f["mesh_neighbor_index"].arr, mi), n)
 
 
-def apply_diffusion_case(cls):
-    P = "C07/%s::ApplyDiffusion" % cls
+def apply_diffusion_case(cls, prop="C07"):
+    P = "%s/%s::ApplyDiffusion" % (prop, cls)
 
     def run(api):
         prog = C11.program()
         c = api.ctx
-        I = K.make_interp(prog, c, "C07", loop_inv=dict(K.LOOP_INV))
+        I = K.make_interp(prog, c, prop, loop_inv=dict(K.LOOP_INV))
         I.check_integrality = True
         o = _obj(I, cls)
         f = dict(o.fields)
@@ -182,14 +182,14 @@ def draw_case(cls):
     return Case("%s/DrawAndApplyEvent" % cls, run, functions=["%s::DrawAndApplyEvent" % cls], conc=False, max_paths=3000)
 
 
-def reaction_prop_case(cls):
-    P = "C07/%s::ReactionProp" % cls
+def reaction_prop_case(cls, prop="C07"):
+    P = "%s/%s::ReactionProp" % (prop, cls)
 
     def run(api):
         prog = C11.program()
         c = api.ctx
         inv0 = dict(K.LOOP_INV)
-        I = K.make_interp(prog, c, "C07", loop_inv=inv0)
+        I = K.make_interp(prog, c, prop, loop_inv=inv0)
         o = _obj(I, cls)
         f = o.fields
         S, R, M = f["n_species"], f["n_reactions"], f["n_meshes"]
@@ -238,13 +238,13 @@ def reaction_prop_case(cls):
     return Case("%s/ReactionProp" % cls, run, functions=["%s::ReactionProp" % cls], conc=False, max_paths=3000)
 
 
-def diffusion_prop_case(cls):
-    P = "C07/%s::DiffusionProp" % cls
+def diffusion_prop_case(cls, prop="C07"):
+    P = "%s/%s::DiffusionProp" % (prop, cls)
 
     def run(api):
         prog = C11.program()
         c = api.ctx
-        I = K.make_interp(prog, c, "C07", loop_inv=dict(K.LOOP_INV))
+        I = K.make_interp(prog, c, prop, loop_inv=dict(K.LOOP_INV))
         o = _obj(I, cls)
         f = o.fields
         S, M = f["n_species"], f["n_meshes"]
